@@ -28,6 +28,12 @@ func (l *httpFileSystemLoader) Open(name string) (io.ReadCloser, error) {
 // Exists implements Loader.Exists() on top of an http.FileSystem by trying to open the file.
 func (l *httpFileSystemLoader) Exists(name string) bool {
 	if f, err := l.Open(name); err == nil {
+		if file, ok := f.(http.File); ok {
+			if stat, err := file.Stat(); err == nil && stat.IsDir() {
+				f.Close()
+				return false // a directory opens fine but is not a template
+			}
+		}
 		f.Close()
 		return true
 	}
